@@ -9,7 +9,7 @@ From FJ Require Import Gen.Facts_Devices.        (* regenerated; keep on its own
 Local Open Scope N_scope.
 
 (* the device methods use no Reader and call only primitives (depth 1) *)
-Definition dev_cfg : config := mkconfig 0 0 [].
+Definition dev_cfg : config := mkconfig 0 0 [] (fun _ => None).
 Definition callD : fname -> list value -> world -> eres := call_at dev_cfg dev_program 1.
 
 (* a world that holds only a device *)
